@@ -494,6 +494,11 @@ func c15Hard(c *Ctx, limits, enforce *ssa.Function) {
 		if !okD || dMin < k {
 			bad = joinNonEmpty(bad, fmt.Sprintf("hard = %d*(R/%s) with the divisor only known to be >= %d: the hard limit can exceed the remaining time (e.g. movestogo 1)", k, vstrOf(D), dMin))
 		}
+		// the divisor must not wrap around: int64 arithmetic on an unbounded movestogo can make
+		// 2*(moves+1) zero (division by zero in the search goroutine) or negative
+		if dMax, okU := upperBoundOfProduct(o.St, D); !okU || dMax > 1<<62 {
+			bad = joinNonEmpty(bad, fmt.Sprintf("the divisor %s has no upper bound on this path: for a huge movestogo it wraps to zero or below (movestogo 9223372036854775807 divides by zero and crashes the engine)", vstrOf(D)))
+		}
 		// soft <= hard
 		ks, Rs, Ds, okS := parseScaled(tp.E[0])
 		if okS && (vstrOf(Rs) != vstrOf(R) || vstrOf(Ds) != vstrOf(D) || ks > k) {
@@ -579,6 +584,30 @@ func lowerBoundOfProduct(st *absint.State, d absint.Value) (int64, bool) {
 		if okA && okB && a >= 0 && b >= 0 {
 			return a * b, true
 		}
+	}
+	return 0, false
+}
+
+// upperBoundOfProduct: the largest value the zone allows for a non-negative product/sum term.
+func upperBoundOfProduct(st *absint.State, d absint.Value) (int64, bool) {
+	if c, ok := absint.ConstInt(d); ok {
+		return c, true
+	}
+	if _, hi, _, hasHi := absint.Bounds(st, d); hasHi {
+		return hi, true
+	}
+	if s, ok := d.(*absint.Sym); ok && len(s.Args) == 2 && (s.Op == "*" || s.Op == "+") {
+		a, okA := upperBoundOfProduct(st, s.Args[0])
+		b, okB := upperBoundOfProduct(st, s.Args[1])
+		if okA && okB && a >= 0 && b >= 0 && a < 1<<31 && b < 1<<31 {
+			if s.Op == "*" {
+				return a * b, true
+			}
+			return a + b, true
+		}
+	}
+	if s, ok := d.(*absint.Sym); ok && len(s.Args) == 1 && strings.HasPrefix(s.Op, "conv:") {
+		return upperBoundOfProduct(st, s.Args[0])
 	}
 	return 0, false
 }
